@@ -951,6 +951,31 @@ func (e *Eng) loopVar(fr *Frame, li *loopInfo, name string, bind map[*ssa.Phi]Va
 	if name == "rng" && li.rangeVal != nil {
 		return e.val(fr, li.rangeVal)
 	}
+	// iter<n> / rng<n>: the range index and ranged-over value of the enclosing loop with ordinal n (an inner loop's
+	// invariant restating what the outer iteration has established so far)
+	for _, pfx := range []string{"iter", "rng"} {
+		if strings.HasPrefix(name, pfx) && len(name) > len(pfx) {
+			if n, err := strconv.Atoi(name[len(pfx):]); err == nil {
+				for _, o := range e.loopList {
+					if o.ord != n {
+						continue
+					}
+					if o == li {
+						return e.loopVar(fr, li, pfx, bind, st)
+					}
+					if !o.body[li.header] {
+						panic(unsupportedErr{fmt.Sprintf("loop %d of %s: %s names a loop that does not enclose it", li.ord, e.fn, name)})
+					}
+					if pfx == "iter" && o.rangeIdx != nil {
+						return app("bvadd", e.val(fr, o.rangeIdx).(T), i64(1))
+					}
+					if pfx == "rng" && o.rangeVal != nil {
+						return e.val(fr, o.rangeVal)
+					}
+				}
+			}
+		}
+	}
 	for _, instr := range li.header.Instrs {
 		if phi, ok := instr.(*ssa.Phi); ok && phi.Comment == name {
 			return bind[phi]
@@ -1108,6 +1133,12 @@ func (e *Eng) finish(fr *Frame) {
 	}
 	e.cover(st, "exit", e.coverProps(), nil, "some return is reachable under the assumed callee contracts and invariants")
 	if !e.collect {
+		for _, nc := range e.fc.NoCalls {
+			if !e.noCallHit[nc] {
+				// no such call on any path: discharged by construction (and recorded, so that it is in the baseline)
+				e.addObl("nocall", nc.Label, propsOf(nc, e), "", nil, "this function never calls "+nc.Expr+" (no such call on any explored path)", true)
+			}
+		}
 		for _, ss := range e.fc.Sites {
 			if !e.siteHit[ss] {
 				o := e.addObl("contract", fmt.Sprintf("callsite.%s#%d", ss.Callee, ss.N), propsOf(ss.Clause, e), "", nil, "the call this clause is attached to was not found (or is unreachable)", false)
